@@ -478,6 +478,10 @@ func (g *Gen) genUpdateDateCriteria() *eng.Tx {
 // ---------- marketplace ----------
 
 func (g *Gen) askDenom() string {
+	// uregen is special (its fees are burned instead of kept): a quarter of the asks
+	if g.V.AllowedDenoms["uregen"] != nil && g.chance(0.25) {
+		return "uregen"
+	}
 	ks := sortedKeys(g.V.AllowedDenoms)
 	if len(ks) == 0 || (g.hostile() && g.chance(0.3)) {
 		return g.bankDenom()
